@@ -15,6 +15,14 @@
    * a proposal message is its type, its requested spend (EGF only) and what executing it does:
      an effect on the rest of the application (AOk tag), a failure (AFail) or a bank send from the
      governance module account (AGovSend) — the one message kind whose effect is on modelled state.
+     Messages whose handler reads or writes the governance module's OWN state (gov MsgDeposit /
+     MsgSubmitProposal / MsgVote / MsgCancelProposal signed by the module account) have no action
+     here: a history containing one is outside the model (the harness runs such histories under the
+     monitor only).  In particular MsgDeposit with the module account as depositor pledges coins
+     the account holds for other proposals — on the real side it belongs to the same class as
+     AGovSend ("the governance account spends what are other proposals' deposits", finding C15-2);
+     the guard op_no_govsend of the conservation theorems therefore reads, for real histories:
+     no proposal message sends from the module account AND none deposits from it.
    * the inactive / active queues are the sets {status = deposit} / {status = voting} ordered by
      (end time, id); the harness compares them with the stored queues after every step.
    * closed proposals stay in the list as ghosts (status SDropped / SCancelled = deleted from the
